@@ -57,7 +57,7 @@ def verify_function(world, target, contract, timeout_ms=20000):
         res["undecided_reason"] = f"unsupported: {e} (near line {getattr(it, 'cur_line', '?')})"
     except Exception as e:  # engine error: never a violation
         res["status"] = "error"
-        res["undecided_reason"] = f"{type(e).__name__}: {e}\n{traceback.format_exc(limit=8)}"
+        res["undecided_reason"] = f"{type(e).__name__}: {e}\n{traceback.format_exc()[-3000:]}"
     res["paths"] = it.explorer.paths
     res["solver_time_s"] = round(it.solver_time, 3)
     res["solver_calls"] = it.solver_calls
